@@ -22,7 +22,7 @@ func runFamilies(e *env, prop, tag string, fam func(r *rng.R, id int) *famOut, b
 		kb := merge(fs...).batch(tag, vals)
 		kbs = append(kbs, kb)
 	}
-	res, err := runK2(e, strings.ToLower(prop), kbs)
+	res, err := runK2(e, strings.ToLower(prop)+strings.ReplaceAll(tag, "-", ""), kbs)
 	if err != nil {
 		return err
 	}
@@ -46,6 +46,9 @@ func runFamilies(e *env, prop, tag string, fam func(r *rng.R, id int) *famOut, b
 			head = head[:j]
 		}
 		e.rep.Count(tag + ".call." + strings.Trim(head, "()"))
+		if d := os.Getenv("GVH_DUMP"); d != "" && strings.Contains(c.Method, d) {
+			fmt.Fprintln(os.Stderr, "DUMP", c.Converter, c.Method, truncate(strings.Join(c.Values, " "), 300), "=>", truncate(c.Impl, 300), "| MODEL", truncate(c.Model, 300))
+		}
 		if c.Impl != c.Model {
 			class := ""
 			if classify != nil {
